@@ -48,6 +48,19 @@ PosMenu(n) ==
   \cup {IxMk(m) : m \in Masks(n)}
   \cup {IxSl(<<1>>, <<>>, <<>>), IxSl(<<>>, <<-1>>, <<>>), IxSl(<<>>, <<>>, <<-1>>), IxSl(<<0>>, <<n+2>>, <<2>>)}
 
+\* reduced menus used for arrays of three and more dimensions
+LabelMenuR(L) == {IxAll, IxSc(L[Len(L)]), IxLi(Rev(L)), IxLi(<<L[1]>>), IxMk([i \in 1..Len(L) |-> i # 1 \/ Len(L) = 1]),
+                  IxSl(<<L[1]>>, <<L[Len(L)]>>, <<>>), IxSc(Lo(L) + 1)}
+PosMenuR(n) == {IxAll, IxSc(n - 1), IxSc(-n), IxLi([i \in 1..n |-> n - i]), IxLi(<<0>>), IxMk([i \in 1..n |-> i # 1 \/ n = 1]),
+                IxSl(<<>>, <<-1>>, <<>>), IxSl(<<>>, <<>>, <<-1>>)}
+RECURSIVE IdxTuplesR(_, _)
+IdxTuplesR(labs, mode) ==
+  IF labs = <<>> THEN {<<>>}
+  ELSE {<<ix>> \o t : ix \in (IF mode = "label" THEN LabelMenuR(Head(labs)) ELSE PosMenuR(Len(Head(labs)))),
+                      t \in IdxTuplesR(Tail(labs), mode)}
+BigArrays == {<< <<4, 2>>, <<2, 6, 4>>, <<6, 2>> >>, << <<2, 4, 6>>, <<6>>, <<4, 2, 6>> >>}
+            \cup (IF MaxDim >= 4 THEN {<< <<4, 2>>, <<2, 6, 4>>, <<6, 2>>, <<2, 4>> >>} ELSE {})
+
 RECURSIVE IdxTuples(_, _)
 IdxTuples(labs, mode) ==
   IF labs = <<>> THEN {<<>>}
@@ -63,8 +76,9 @@ Init == in = NoIn /\ out = <<>> /\ ph = 0
 \* ph 0 -> 1: choose the array and the mode
 ChooseArray ==
   /\ ph = 0 /\ ph' = 1 /\ out' = out
-  /\ \E nd \in 0..MaxDim : \E labs \in LabTuples(nd) : \E mode \in {"label", "position", "tol"} :
+  /\ \E nd \in 0..3 : \E labs \in (IF nd = 3 THEN BigArrays ELSE LabTuples(nd)) : \E mode \in {"label", "position", "tol"} :
         /\ (mode = "tol" => nd = 1)
+        /\ (nd \in 1..2 => nd <= MaxDim)
         /\ in' = [a |-> MkArr(labs), idxs |-> <<>>, mode |-> mode, tol |-> <<>>]
 
 \* ph 1 -> 2: choose the index tuple (and the tolerance in the 1-D tolerance model)
@@ -74,6 +88,8 @@ ChooseIndex ==
   /\ IF in.mode = "tol"
      THEN \E t \in {0, 1, 2, 3, 100000} : \E ix \in TolMenu(in.a.labs[1]) :
              in' = [in EXCEPT !.idxs = <<ix>>, !.mode = "label", !.tol = <<t>>]
+     ELSE IF NDim(in.a) >= 3
+     THEN \E idxs \in IdxTuplesR(in.a.labs, in.mode) : in' = [in EXCEPT !.idxs = idxs]
      ELSE \E idxs \in IdxTuples(in.a.labs, in.mode) : in' = [in EXCEPT !.idxs = idxs]
 
 \* ph 2 -> 3: apply the operator
